@@ -19,6 +19,7 @@ func init() {
 			"functions, each by exactly ±1 in its reviewed direction (updateOldCodeEntry −1, updateNewCodeEntry +1, journalEntryCode.revertNewCodeEntry −1). " +
 			"(S2) every decrement is on the `NumReferences > 1` side of a test whose other side deletes the entry (Update(hash, nil)), so the counter never underflows and no entry with count 0 survives. " +
 			"(S3) every counter change is persisted by a checked saveCodeEntry of the same entry before a success exit; in saveCode the old-entry and new-entry updates occur together on success paths. " +
+			"Nothing in the package clears an account instance's hasNewCode flag. " +
 			"Not decided (value-level): equality of the count with the number of referring accounts over histories.",
 		Run: runC07,
 	})
